@@ -734,7 +734,7 @@ def r07_4(rep: Report, idx: Index) -> None:
             t = atom
             if re.search(r'\buse\b|\.usage\b|usage_allows', t):
                 return 'usage'
-            if re.search(r'exclud', t):
+            if re.search(r'exclud', t, re.I):
                 return 'exclude'
             if re.search(r'default|dft|_defaults', t, re.I):
                 return 'default'
@@ -761,7 +761,7 @@ def r07_4(rep: Report, idx: Index) -> None:
         if not unknown:
             rep.ok(rid, construct, 'no other skip condition', f'conditions on the emission: {sorted(cats)}')
         # usage mask and exclude set are honoured on every path to the emission
-        for label, pat in (('usage mask', r'\.usage & \w+ == 0|usage_allows'), ('exclude', r'^\S+ in \w*exclud\w*$')):
+        for label, pat in (('usage mask', r'\.usage & \w+ == 0|usage_allows'), ('exclude', r'^\S+ in (?i:\w*exclud\w*)$')):
             ok_all = True
             why = ''
             for st, x in emits:
